@@ -48,6 +48,8 @@ def plan(tier, seed):
     specs.append({"name": "flips-scripted-nosign", "kind": "flips", "security": "scripted", "part": 0, "parts": 1, "body_stride": 16 if q else 1})
     specs.append({"name": "rewrites", "kind": "rewrites", "security": "ntlm"})
     specs.append({"name": "replay", "kind": "replay", "security": "ntlm"})
+    specs.append({"name": "request-level-ntlm", "kind": "request_level", "security": "ntlm", "flip_stride": 16 if q else 1})
+    specs.append({"name": "request-level-negotiate", "kind": "request_level", "security": "negotiate", "flip_stride": 64 if q else 4})
     return specs
 
 
@@ -84,7 +86,13 @@ class World:
     def call(self, op: str, api: str, tamper) -> t.Tuple[str, t.Any]:
         import dpapi_ng
 
-        self.cfg.tamper = tamper
+        def recording_tamper(conn, out, info):
+            new = tamper(conn, out, info)
+            self.changed = new != out
+            return new
+
+        self.changed = False
+        self.cfg.tamper = recording_tamper
         mem = fe.MemoryDC(self.core)
         try:
             with mem.installed(scripted_auth=(self.sec == "scripted")):
@@ -104,9 +112,17 @@ class World:
             self.cfg.tamper = None
             self.delivered = sum(len(s.sent) if hasattr(s, "sent") else 0 for s in mem.sockets)
 
-    def judge(self, op: str, out, wit: dict, tamper_class: str) -> None:
+    def judge(self, op: str, out, wit: dict, tamper_class: str, strict: bool = False) -> None:
+        """strict: the alteration is covered by the security context (ciphertext, signature, or - when
+        header signing is in effect - header / trailer), so acceptance with the same result is a violation too."""
         rec = self.rec
         kind, val = out
+        if strict and self.changed and kind == "ok":
+            same = (val == self.pt) if op == "unprotect" else True
+            if same:
+                rec.count("tampered_replies_read_by_client")
+                rec.violation("altered-reply-accepted", f"{op} succeeded although the sealed reply was altered ({tamper_class}); the alteration is covered by the security context and must be rejected", wit)
+                return
         if kind == "timeout":
             return
         rec.count("tampered_replies_read_by_client")
@@ -179,7 +195,7 @@ def run_strip(spec, rec: Recorder):
         for op in ("unprotect", "protect"):
             for api in ("sync", "async"):
                 for form in ("seed", "public"):
-                    for variant in ("evil-envelope", "same-stub", "with-pad"):
+                    for variant in ("evil-envelope", "same-stub", "with-pad", "level-1", "level-2", "level-4", "level-5", "type-0"):
 
                         def tamper(conn, out, info, form=form, variant=variant):
                             req = [e for e in conn.events if e["event"] == "request"][-1]["getkey"]
@@ -187,6 +203,23 @@ def run_strip(spec, rec: Recorder):
                             stub = w.evil_stub(gk, form) if variant != "same-stub" else info["stub"]
                             if variant == "with-pad":
                                 stub += b"\x00" * (-len(stub) % 16)
+                            if variant.startswith(("level-", "type-")):
+                                # keep a security trailer (so 'no trailer' checks pass) but announce a weaker level /
+                                # no provider, and put the attacker's cleartext stub where the ciphertext was
+                                al = int.from_bytes(out[10:12], "little")
+                                off = len(out) - al - 8
+                                trailer = bytearray(out[off : off + 8])
+                                if variant.startswith("level-"):
+                                    trailer[1] = int(variant.split("-")[1])
+                                else:
+                                    trailer[0] = 0
+                                padn = -len(stub) % 16
+                                trailer[2] = padn
+                                body = stub + b"\x00" * padn
+                                hdr = bytearray(out[:24])
+                                hdr[8:10] = struct.pack("<H", 24 + len(body) + 8 + al)
+                                hdr[16:20] = struct.pack("<I", len(body))
+                                return bytes(hdr) + body + bytes(trailer) + out[off + 8 :]
                             return rrpc.encode(dict(ptype=rrpc.RESPONSE, flags=FL, call_id=info["request"]["call_id"], auth=None, alloc_hint=len(stub), ctx_id=info["request"]["ctx_id"], cancel_count=0, stub=stub))
 
                         out = w.call(op, api, tamper)
@@ -239,7 +272,9 @@ def run_flips(spec, rec: Recorder):
                 wit = {"class": "bitflip", "op": op, "api": a, "bit": bit, "region": region, "security": w.sec, "reply_len": n}
                 rec.count("bitflip_cases")
                 rec.count(f"bitflip_{region}")
-                w.judge(op, out, wit, f"bit flip {bit} ({region})")
+                # real NTLM signs header and trailer in every mode; the scripted context of this shard has header signing off
+                strict = w.sec != "scripted" or region in ("body", "signature")
+                w.judge(op, out, wit, f"bit flip {bit} ({region})", strict=strict)
                 rec.case(("flip", op, bit, w.sec))
             rec.sample({"class": "bitflip", "op": op, "security": w.sec, "reply_len": n, "auth_offset": auth_off, "bits_in_this_shard": len(mine), "body_stride": spec["body_stride"]})
             if spec["body_stride"] == 1:
@@ -300,7 +335,7 @@ def run_rewrites(spec, rec: Recorder):
                     out = w.call(op, api, tamper)
                     wit = {"class": "rewrite", "field": field, "value": val, "op": op, "api": api, "security": w.sec}
                     rec.count("rewrite_cases")
-                    w.judge(op, out, wit, f"{field}={val}")
+                    w.judge(op, out, wit, f"{field}={val}", strict=True)
                     rec.case(("rewrite", field, val, op, api), sample=wit if field == "pad_length" and val == 1 else None)
     finally:
         w.close()
@@ -368,10 +403,158 @@ def run_replay(spec, rec: Recorder):
             rec.case(("replay", sec, mode), sample=wit if mode == "replay" else None)
 
 
+def rewrite_cases() -> t.List[t.Tuple[str, int]]:
+    cases = [("pad_length", p) for p in list(range(0, 17)) + [32, 255]]
+    cases += [("auth_len", a) for a in (0, 1, 8, 15, 17, 32, 65535)]
+    cases += [("frag_len", d) for d in (-16, -8, -1, 1, 8, 16)]
+    cases += [("alloc_hint", a) for a in (0, 1, 2**32 - 1)]
+    cases += [("truncate", c) for c in (1, 8, 16, 24)]
+    cases += [("swap-body-blocks", 0), ("zero-signature", 0), ("auth-level", 5), ("auth-level", 2), ("auth-level", 1), ("auth-type", 9), ("auth-type", 16), ("strip-trailer", 0), ("strip-trailer-keep-body", 0)]
+    return cases
+
+
+def apply_rewrite(out: bytes, field: str, val: int) -> bytes:
+    b = bytearray(out)
+    n = len(b)
+    al = int.from_bytes(b[10:12], "little")
+    off = n - al - 8
+    if field == "pad_length":
+        b[off + 2] = val
+    elif field == "auth_len":
+        b[10:12] = struct.pack("<H", val)
+    elif field == "frag_len":
+        b[8:10] = struct.pack("<H", (n + val) & 0xFFFF)
+    elif field == "alloc_hint":
+        b[16:20] = struct.pack("<I", val)
+    elif field == "truncate":
+        b = b[: n - val]
+        b[8:10] = struct.pack("<H", len(b))
+    elif field == "swap-body-blocks":
+        b[24:40], b[40:56] = b[40:56], b[24:40]
+    elif field == "zero-signature":
+        b[off + 8 :] = bytes(al)
+    elif field == "auth-level":
+        b[off + 1] = val
+    elif field == "auth-type":
+        b[off] = val
+    elif field == "strip-trailer":
+        b = b[:off]
+        b[8:10] = struct.pack("<H", len(b))
+        b[10:12] = b"\x00\x00"
+    elif field == "strip-trailer-keep-body":
+        b[10:12] = b"\x00\x00"
+    return bytes(b)
+
+
+def run_request_level(spec, rec: Recorder):
+    """SyncRpcClient / AsyncRpcClient.request() directly: whatever it returns without raising must be exactly
+    the plaintext stub the DC sealed (the public API would mask a garbled stub behind a later decode error)."""
+    from dpapi_ng import _client as cl
+    from dpapi_ng import _gkdi
+    from dpapi_ng._rpc import _auth
+    from dpapi_ng._rpc import _client as rc
+
+    rng = common.rng_for(ID, spec)
+    sec = spec["security"]
+    fe.ensure_ntlm_credentials()
+    rkid = uuid.UUID(int=rng.getrandbits(128))
+    rk = online.root_key(rng, "SHA256", "ECDH_P256")
+    cfg = DCConfig({rkid: rk}, rkid, security=sec, now=(361, 9, 13))
+    core = DCCore(cfg)
+    sd1 = rsd.target_sd(rsd.Sid(1, 5, (21, 1, 2, 3, 500)))
+    loop = asyncio.new_event_loop()
+    asyncio.set_event_loop(loop)
+
+    def one(tamper_fn, label: str, wit: dict, use_async: bool) -> None:
+        sealed = {}
+
+        def tamper(conn, out, info):
+            sealed["stub"] = info["stub"]
+            new = tamper_fn(out)
+            sealed["changed"] = new != out
+            return new
+
+        cfg.tamper = tamper
+        mem = fe.MemoryDC(core)
+        auth = _auth.AuthenticationProvider(fe.NTLM_USER, fe.NTLM_PASS, "dc.verif.test", sec)
+        stub_req = _gkdi.GetKey(sd1, rkid, 361, 1, 1).pack()
+        try:
+            if use_async:
+                reader, writer = mem.async_factory("dc", cfg.isd_port)
+                c = rc.AsyncRpcClient(reader, writer, auth)
+
+                async def go():
+                    await c.bind(cl._ISD_KEY_CONTEXTS)
+                    return await c.request(0, 0, stub_req, verification_trailer=cl._VERIFICATION_TRAILER)
+
+                resp = loop.run_until_complete(asyncio.wait_for(go(), 30))
+            else:
+                c = rc.SyncRpcClient(mem.sync_factory("dc", cfg.isd_port), auth)
+                c.bind(cl._ISD_KEY_CONTEXTS)
+                resp = c.request(0, 0, stub_req, verification_trailer=cl._VERIFICATION_TRAILER)
+            res = ("ok", resp)
+        except asyncio.TimeoutError:
+            rec.inconclusive_because("watchdog: request-level async call exceeded 30s")
+            return
+        except Exception as e:
+            res = ("error", f"{type(e).__name__}: {e}")
+        finally:
+            cfg.tamper = None
+        rec.count("tampered_replies_read_by_client")
+        rec.count("request_level_cases")
+        if res[0] == "error":
+            rec.count("benign_or_rejected")
+            return
+        resp = res[1]
+        want = sealed.get("stub", b"")
+        got = resp.stub_data
+        pad = resp.sec_trailer.pad_length if resp.sec_trailer else 0
+        if got[: len(want)] != want or len(got) - len(want) > 255 or (sealed.get("changed") and label != "control"):
+            mech = "cleartext-reply-accepted" if label.startswith("strip") else "altered-reply-accepted"
+            rec.violation(mech, f"request() returned without raising after {label} ({sec}, {'async' if use_async else 'sync'}); stub equals what was sealed: {got[: len(want)] == want}", wit)
+        else:
+            rec.count("benign_or_rejected")
+
+    try:
+        one(lambda out: out, "control", {"class": "control"}, False)
+        one(lambda out: out, "control", {"class": "control"}, True)
+        if rec.violations:
+            rec.inconclusive_because("request-level control run failed")
+            return
+        rec.count("baseline_ok")
+        i = 0
+        for field, val in rewrite_cases():
+            for use_async in (False, True):
+                one(lambda out, f=field, v=val: apply_rewrite(out, f, v), f"{'strip' if field.startswith('strip') else 'rewrite'} {field}={val}", {"class": "request-level", "field": field, "value": val, "async": use_async, "security": sec}, use_async)
+                rec.case(("rl", field, val, use_async, sec))
+                rec.count("rewrite_cases")
+        # bit flips
+        probe = {}
+        one(lambda out: probe.setdefault("r", out), "control", {"class": "control"}, False)
+        n = len(probe["r"])
+        al = int.from_bytes(probe["r"][10:12], "little")
+        off = n - al - 8
+        for bit in flip_positions(n, off, spec["flip_stride"]):
+            i += 1
+            one(lambda out, bit=bit: mutate_flip(out, bit), f"bit flip {bit}", {"class": "request-level", "bit": bit, "security": sec}, i % 7 == 0)
+            rec.case(("rlflip", bit, sec))
+            rec.count("bitflip_cases")
+        rec.sample({"class": "request-level", "security": sec, "rewrites": len(rewrite_cases()), "reply_len": n, "flip_stride": spec["flip_stride"]})
+    finally:
+        loop.close()
+
+
+def mutate_flip(out: bytes, bit: int) -> bytes:
+    b = bytearray(out)
+    if bit // 8 < len(b):
+        b[bit // 8] ^= 1 << (bit % 8)
+    return bytes(b)
+
+
 def run_shard(spec, rec: Recorder):
     if not common.calibrate(rec, "rpc", "gkdi", "cms", "crypto"):
         return
-    {"strip": run_strip, "flips": run_flips, "rewrites": run_rewrites, "replay": run_replay}[spec["kind"]](spec, rec)
+    {"strip": run_strip, "flips": run_flips, "rewrites": run_rewrites, "replay": run_replay, "request_level": run_request_level}[spec["kind"]](spec, rec)
 
 
 def replay(body, rec: Recorder):
